@@ -225,6 +225,30 @@ def check(case, out):
         out.fail("operand-modified", klass, "evaluation changed the knot vector")
 
 
+    # a sequence holding exactly one node keeps its node axis: rows of length one (not bare numbers)
+    k1 = len(lparams) // 2
+    for form in ("list", "tuple"):
+        one = [lparams[k1]] if form == "list" else (lparams[k1],)
+        col = table(p)
+        for label, got1, want in ((f"f({form} of one node)", f(one), [[col[i][k1]] for i in range(n)]),
+                                  (f"f[:, {p}]({form} of one node)", f[:, p](one), [[col[i][k1]] for i in range(n)]),
+                                  (f"f[0, {p}]({form} of one node)", f[0, p](one), [col[0][k1]])):
+            try:
+                rows = [list(r) for r in got1] if label.startswith(("f(", "f[:")) else list(got1)
+            except TypeError:
+                out.fail("shape", klass + ";one-node-sequence", f"{label} at {lparams[k1]} returned {got1!r}: the node axis is gone")
+                break
+            flat_got = [oracle.frac(x) for x in lib.walk_numbers(rows)]
+            flat_want = [oracle.frac(x) for x in lib.walk_numbers(want)]
+            shape_ok = (len(rows) == len(want)) and all(
+                (not isinstance(w_, list)) or len(r_) == len(w_) for r_, w_ in zip(rows, want))
+            if not shape_ok or len(flat_got) != len(flat_want):
+                out.fail("shape", klass + ";one-node-sequence", f"{label} at {lparams[k1]} returned {got1!r}: not one entry per node")
+                break
+            if any(abs(a_ - b_) > tol for a_, b_ in zip(flat_got, flat_want)):
+                out.fail("value", klass + ";one-node-sequence", f"{label} at {lparams[k1]}: got {got1!r}")
+                break
+
 FACETS = [
     Facet("exact", lambda tier: cases(("frac",), pmax=5 if tier == "thorough" else 4,
                                       kmax=4 if tier == "thorough" else 3),
